@@ -275,14 +275,56 @@ theorem predictor_isValid_iff (p : Int) :
   simp only [Id.run, pure, beq_iff_eq, Bool.or_eq_true]
   split <;> simp <;> omega
 
-/-- `FilterCCITTFax.validate` accepts exactly dimensions in `[0, 2²⁰]` -/
+/-- `ccittMaxRows` never panics and is `max(1, min(MaxImageHeight, MaxImagePixels / max(columns, 1)))` -/
+theorem ccittMaxRows_eq (c : Int) :
+    pdf_ccittMaxRows c = some (max 1 (min 65536 (134217728 / max c 1))) := by
+  have h1 : max c 1 ≠ 0 := by omega
+  have hq0 : 0 ≤ (134217728 : Int) / max c 1 := Int.ediv_nonneg (by omega) (by omega)
+  have hq1 : (134217728 : Int) / max c 1 ≤ 134217728 := Int.ediv_le_self _ (by omega)
+  unfold pdf_ccittMaxRows quo64
+  simp only [h1, if_false]
+  rw [Int.tdiv_eq_ediv_of_nonneg (by omega), i64_of_bounds (by omega) (by omega)]
+  rfl
+
+/-- `FilterCCITTFax.validate` accepts exactly `Columns` and `DamagedRowsBeforeError` in
+`[0, 2²⁰]` and `Rows` in `[0, ccittMaxRows(Columns)]` (`Columns` 0 stands for 1728); it never
+panics -/
 theorem ccitt_validate_iff (f : pdf_FilterCCITTFax) (v : Int) :
-    pdf_FilterCCITTFax_validate f v = none ↔
-      (0 ≤ f.Columns ∧ f.Columns ≤ 1048576) ∧ (0 ≤ f.Rows ∧ f.Rows ≤ 1048576) ∧
+    pdf_FilterCCITTFax_validate f v = some none ↔
+      (0 ≤ f.Columns ∧ f.Columns ≤ 1048576) ∧
+      (0 ≤ f.Rows ∧ f.Rows ≤ max 1 (min 65536 (134217728 / max (if f.Columns = 0 then 1728 else f.Columns) 1))) ∧
       (0 ≤ f.DamagedRowsBeforeError ∧ f.DamagedRowsBeforeError ≤ 1048576) := by
   unfold pdf_FilterCCITTFax_validate
-  simp only [Id.run, pure, Bool.or_eq_true, decide_eq_true_eq]
-  split <;> (try split) <;> (try split) <;> simp <;> omega
+  simp only [ccittMaxRows_eq]
+  by_cases hc : f.Columns < 0 ∨ f.Columns > 1048576
+  · have : (decide (f.Columns < 0) || decide (f.Columns > 1048576)) = true := by simpa using hc
+    simp [this]; omega
+  · have hcf : (decide (f.Columns < 0) || decide (f.Columns > 1048576)) = false := by simpa using hc
+    have fin : ∀ (M : Int),
+        (((if 0 ≤ f.Rows then some (decide (M < f.Rows)) else some true).bind fun __do_lift =>
+          if __do_lift = true then some (some "invalid number of rows %d")
+          else if f.DamagedRowsBeforeError < 0 ∨ 1048576 < f.DamagedRowsBeforeError then
+            some (some "invalid number of damaged rows %d")
+          else some none) = some (none : Option String) ↔
+        (0 ≤ f.Rows ∧ f.Rows ≤ M) ∧ 0 ≤ f.DamagedRowsBeforeError ∧ f.DamagedRowsBeforeError ≤ 1048576) := by
+      intro M
+      by_cases hr : 0 ≤ f.Rows
+      · by_cases hm : M < f.Rows
+        · simp [hr, hm]; omega
+        · by_cases hd : f.DamagedRowsBeforeError < 0 ∨ 1048576 < f.DamagedRowsBeforeError
+          · simp [hr, hm, hd]; omega
+          · simp [hr, hm, hd]; omega
+      · simp [hr]
+    have hcols : 0 ≤ f.Columns ∧ f.Columns ≤ 1048576 := by omega
+    by_cases h0 : f.Columns = 0
+    · simp [h0]
+      exact fin _
+    · have hc' : ¬ (f.Columns < 0 ∨ 1048576 < f.Columns) := by omega
+      simp [h0]
+      rw [if_neg hc', fin _]
+      constructor
+      · intro h; exact ⟨hcols, h⟩
+      · intro h; exact h.2
 
 /-- what `validateFlateLZW` guarantees about accepted parameters (every Flate/LZW encoder is
 created only after it): a listed predictor; no stray parameters without a predictor; bounded
@@ -485,7 +527,7 @@ theorem checkBitmapSize_iff (w h : Int) (hw : IsI64 w) (hh : IsI64 h) :
 example : jbig2_checkedMul 3037000500 3037000500 = some (0, some "jbig2: multiplication overflow: %d * %d") ∧
     jbig2_checkedMul 3037000499 3037000499 = some (9223372030926249001, none) := by decide +kernel
 
-example : lim_StreamBudget 1000 = 9412608 ∧ lim_StreamBudget (-5) = 8388608 ∧
-    lim_StreamBudget 9223372036854775807 = 276824064 := by decide +kernel
+example : lim_StreamBudget 1000 = lim_StreamBudgetBase + 1024000 ∧ lim_StreamBudget (-5) = lim_StreamBudgetBase ∧
+    lim_StreamBudget 9223372036854775807 = lim_StreamBudgetBase + 268435456 := by decide +kernel
 
 end PdfVerif.C08tr
